@@ -57,8 +57,16 @@ def run(ctx):
     lang = [s for s in lang if s.strip() == s and s and s.isascii()]
     events = ['100', '200', '400', '800', '1500', '3000', '5000', '10000', 'MAR', 'HM', 'XC', '5K', '10K', '110H', '400H', '3000SC', '4x100', '4x400',
               'MILE', '60', '60H', 'HJ', 'PV', 'LJ', 'TJ', 'SP', 'DT', 'HT', 'JT', 'WT', 'DEC', 'HEP', 'PEN', '24HR', 'T30', 'H1', 'L3', 'BAL', '5M', '2MT',
-              '20KW', 'SLJ', 'OT', 'DT1.5K'] + LOOSE + rng.sample(lang, min(len(lang), 250 if ctx.quick() else 600))
+              '20KW', 'SLJ', 'OT', 'DT1.5K', '4xSSMR', '4xSMR', '4xSWR', '4xDMR', '4x1500', '3x800', '4x200', '4x1.5K', '2MILE', '1.5M', '3000W', '2000SC'] + LOOSE + rng.sample(lang, min(len(lang), 250 if ctx.quick() else 600))
     n = 400000 if ctx.quick() else 3000000
+    # the event's distance from the model (Model/Codes.getDistance: MAR 42195, HM 21098, MILE 1609, SMR 1600, SSMR 800, SWR 1000,
+    # legs x leg, K = 1000 x, M = 1609 x, yards), not from the library under test
+    mdist = {}
+    for ev, rep in zip(events, vlib.driver(['cd\tdist\t%s' % CC.cps((ev.split() or [ev])[0]) for ev in events])):
+        f = rep.split()
+        mdist[ev] = int(f[1]) if len(f) == 2 and f[0] == 'ok' and f[1].isdigit() else None
+    class EK2(Exception):
+        pass
     stats = collections.Counter()
     lines = []; expect = []
     def chk(ev, t, g_, prec):
@@ -80,6 +88,19 @@ def run(ctx):
         if prec is None and i % 3 == 0:
             lines.append('pf\tcheck\t%s\t%s\t%s' % (CC.cps(ev), CC.cps(t), CC.cps(g_)))
             expect.append(('ok ' + CC.cps(r)).strip() if st == 'ok' else 'refused')
+        if i % 5 == 0:
+            # the same entry from another caller: another error class, then the default (ValueError)
+            for klass in (EK2, ValueError):
+                try:
+                    r2_ = athlib.check_performance_for_discipline(ev, t, gender=g_, errorKlass=klass, prec=prec); st2_ = 'ok'
+                except klass: r2_ = None; st2_ = 'refused'
+                except Exception as e: r2_ = None; st2_ = 'leak:' + type(e).__name__
+                stats['repeat_with_other_class'] += 1
+                if (st2_, r2_) != (st, r):
+                    ctx.fail('athlib.check_performance_for_discipline', args + [klass.__name__],
+                             ('refused with the class this caller supplied (%s)' % klass.__name__) if st == 'refused' else 'accepted as %r' % r,
+                             st2_ if st2_ != 'ok' else repr(r2_), note='the same entry validated again with another error class',
+                             replay_py='class EK(Exception): pass\nclass EK2(Exception): pass\nout = []\nfor k in (EK, %s):\n    try: out.append(athlib.check_performance_for_discipline(%r, %r, gender=%r, errorKlass=k, prec=%r))\n    except k: out.append("refused with " + k.__name__)\n    except Exception as e: out.append("other exception: " + type(e).__name__)\nresult = out' % ('EK2' if klass is EK2 else 'ValueError', ev, t, g_, prec))
         if st != 'ok': continue
         ctx.seen((ev, t, prec))
         if not isinstance(r, str): fail('a string', repr(r), 'result is not a string'); continue
@@ -105,7 +126,7 @@ def run(ctx):
                 if sec >= 60:
                     fail('seconds below 60', r, 'seconds >= 60 without a minutes field (plain seconds up to 99.99)' if len(parts) == 1 else 'seconds >= 60')
                 if len(parts) == 3 and int(parts[1]) >= 60: fail('minutes below 60 under hours', r, 'minutes >= 60 under hours')
-                dist = athlib.get_distance(ev)
+                dist = mdist.get(ev)
                 dur = athlib.parse_hms(r)
                 if dist and dur:
                     v = dist / dur
